@@ -11,12 +11,12 @@ open List
 
 /-! ### the loop of `BaseFilter.__call__`, generically -/
 
-/-- Loop rule.  `I` = invariant of the glyph set, `E` = the errors a step may produce.  If every step on a glyph of the set
-    either succeeds keeping `I` or fails with an `E`-error, so does the loop over any list of keys. -/
+/-- Loop rule.  `I` = invariant of the glyph set, `E` = the errors a step may produce.  If every step on an included glyph
+    of the set either succeeds keeping `I` or fails with an `E`-error, so does the loop over any list of keys. -/
 theorem filterLoop_res (step : FState → Glyph → Except GErr (FState × Bool)) (incl : String → Bool)
     (I : GlyphSet → Prop) (E : GErr → Prop) (names0 : List String)
     (hnamed : ∀ gs, I gs → Named gs) (hnames : ∀ gs, I gs → gs.names = names0)
-    (hstep : ∀ st g, I st.gs → st.gs.get? g.name = some g →
+    (hstep : ∀ st g, I st.gs → st.gs.get? g.name = some g → incl g.name = true →
       (∃ st' r, step st g = .ok (st', r) ∧ I st'.gs) ∨ (∃ e, step st g = .error e ∧ E e)) :
     ∀ (order : List String) (st : FState), I st.gs → (∀ n ∈ order, n ∈ names0) →
       (∃ st', filterLoop step incl order st = .ok st' ∧ I st'.gs) ∨
@@ -38,7 +38,7 @@ theorem filterLoop_res (step : FState → Glyph → Except GErr (FState × Bool)
       by_cases hin : incl n = true
       · rw [if_pos hin]
         have hname : g.name = n := hnamed st.gs hi n g hget
-        rcases hstep st g hi (by rw [hname]; exact hget) with ⟨st1, r, hs, hi1⟩ | ⟨e, hs, he⟩
+        rcases hstep st g hi (by rw [hname]; exact hget) (by rw [hname]; exact hin) with ⟨st1, r, hs, hi1⟩ | ⟨e, hs, he⟩
         · rw [hs]
           dsimp only
           by_cases hr : r = true
@@ -52,7 +52,7 @@ theorem runFilter_res (step : FState → Glyph → Except GErr (FState × Bool))
     (I : GlyphSet → Prop) (E : GErr → Prop) (gs : GlyphSet) (rank : String → Nat)
     (hr : Ranked gs rank) (hn : Named gs) (hnd : gs.names.Nodup)
     (hnamed : ∀ gs', I gs' → Named gs') (hnames : ∀ gs', I gs' → gs'.names = gs.names)
-    (hstep : ∀ st g, I st.gs → st.gs.get? g.name = some g →
+    (hstep : ∀ st g, I st.gs → st.gs.get? g.name = some g → incl g.name = true →
       (∃ st' r, step st g = .ok (st', r) ∧ I st'.gs) ∨ (∃ e, step st g = .error e ∧ E e))
     (h0 : I gs) :
     (∃ st, runFilter step incl gs = .ok st ∧ I st.gs) ∨ (∃ e, runFilter step incl gs = .error e ∧ E e) := by
@@ -157,7 +157,7 @@ theorem runFilter_decomp_ok (step : FState → Glyph → Except GErr (FState × 
   have := runFilter_res step incl (fun gs' => Keeps gs gs' ∧ Closed gs') (fun _ => False) gs rank hr hn hnd
     (fun gs' h => h.1.2.1) (fun gs' h => h.1.2.2)
     (by
-      intro st g hi hget
+      intro st g hi hget _
       left
       obtain ⟨res, hres⟩ := htot st g (fun nested incl' =>
         decomposeGlyph_ok st.gs rank (hi.1.1 rank hr) hi.2 nested incl' g (hi.2 g.name g hget))
@@ -237,6 +237,15 @@ theorem skipExport_ok (skip : List String) (gs : GlyphSet) (rank : String → Na
     have hns := hall n g (key n g h).1 k hkm
     unfold Present GlyphSet.get? at hp ⊢
     rw [C13.alookup_filter skip k.base hns]; exact hp
+
+/-- with an arbitrary include predicate SkipExportGlyphsFilter still returns a result (but a glyph that was not included
+    may keep a reference to a removed glyph: the reduced set is closed only when every glyph is included, as in the
+    pipelines — `skipExport_ok`) -/
+theorem skipExport_ok_incl (skip : List String) (incl : String → Bool) (gs : GlyphSet) (rank : String → Nat)
+    (hr : Ranked gs rank) (hn : Named gs) (hnd : gs.names.Nodup) (hc : Closed gs) :
+    ∃ st, skipExport skip incl gs = .ok st := by
+  obtain ⟨st0, h0, _, _⟩ := runFilter_skipExportStep_ok skip incl gs rank hr hn hnd hc
+  exact ⟨_, by unfold skipExport; rw [h0]⟩
 
 /-! ### flattenComponents -/
 
@@ -369,7 +378,7 @@ theorem runFilter_flattenStep_ok (incl : String → Bool) (gs : GlyphSet) (rank 
   have := runFilter_res flattenStep incl (fun gs' => Keeps gs gs' ∧ Closed gs') (fun _ => False) gs rank hr hn hnd
     (fun gs' h => h.1.2.1) (fun gs' h => h.1.2.2)
     (by
-      intro st g hi hget
+      intro st g hi hget _
       left
       exact flattenStep_total gs rank st g (hi.1.1 rank hr) hget hi.1 hi.2)
     ⟨Keeps.refl hn, hc⟩
